@@ -275,6 +275,47 @@ def gen(ctx, n=None, n_first=0):
     return cases
 
 
+def sequences(ctx, fails):
+    """stateful sequences through the backend (vsa_expr, last section): the converted object of a variable is reused by every
+    expression and query, so what it remembers from an earlier query must not leak into a later one"""
+    seqs = vx.gen_sequences(ctx.rng, rand_anno, ctx.pick(45, 400), ctx.pick(160, 2000))
+    found = collections.defaultdict(list)
+    stats = collections.Counter()
+    for n, (annos, items, stream) in enumerate(seqs):
+        stats[stream] += 1
+        stats["items"] += len(items)
+        ctx.count(len(items))
+        ctx.distinct(("seq", str(annos), len(items), str(items[-1])))
+        for k, fkind, detail, r in vx.seq_run(annos, items):
+            kind, tree, param = items[k]
+            subj = vx.seq_subject(tree)
+            alone = vx.seq_run(annos, [items[k]])
+            if not alone:
+                sig = "C24/%s/%s/state-dependent:%s" % (vx.seq_qname(kind, tree), fkind, vx.seq_outer(subj))
+            else:       # fails over fresh variables too: the plain analysis names the node (a query inherits the conversion's finding)
+                a = analyse(tree, annos, "sa%d_%d" % (n, k))
+                sig = a[0] if a and a != "skip" else "C24/backend-%s/%s/%s" % (vx.seq_qname(kind, tree), fkind, vx.seq_outer(subj))
+            found[sig].append((annos[0][0] * 1000 + vsa.card(annos[0]), vx.size(tree), k, annos, items, fkind, detail, r, not alone))
+    for sig, lst in sorted(found.items()):
+        _, _, k, annos, items, fkind, detail, r, dep = min(lst, key=lambda c: (c[0], c[1], c[2], str(c[3])))
+        small = vx.seq_shrink(annos, items, k, fkind) if dep else [items[k]]
+        fl = [f for f in vx.seq_run(annos, small) if f[0] == len(small) - 1 and f[1] == fkind]
+        if fl:
+            detail, r = fl[0][2], fl[0][3]
+        else:
+            small = items[:k + 1]
+        what = "%s: the last answer is %s - %s%s  [%d case(s)]" % (vx.seq_show(annos, small), r[1] if r[0] != "dsis" else r, detail,
+                                                                  "; asked alone over fresh variables the last item is answered correctly" if dep else "", len(lst))
+        ctx.violation(sig, what, {"seq_case": True, "annos": [list(t) for t in annos], "items": small, "failure": fkind})
+        fails[sig].extend([None] * len(lst))
+    ctx.cov["sequence_stream"] = {
+        "sequences": len(seqs), "status": dict(stats),
+        "rule": "items over ONE set of variables, executed in order: query x (ten comparisons against pole constants both orders via convert / is_true / "
+                "is_false / has_true / has_false, convert, min/max signed/unsigned, eval, cardinality, solution) -> the same for every derivation d(x) "
+                "(neg, not, zero/sign extension, extract, shifts and arithmetic by constants, concat) -> x again; and two levels deep; oracle = values of "
+                "the tree over every assignment; a failing item is re-run alone over fresh variables (passing there = state-dependent)"}
+
+
 def run(ctx):
     logging.disable(logging.CRITICAL)
     ctx.cov["trusted_base"] += [
@@ -328,6 +369,7 @@ def run(ctx):
     for sig, lst in sorted(fails.items()):
         sz, what, annos, tree = min(lst, key=lambda c: (c[0], len(c[1])))
         ctx.violation(sig, what + "  [%d case(s)]" % len(lst), {"annos": [list(t) for t in annos], "tree": tree})
+    sequences(ctx, fails)
     ctx.cov["operators_seen"] = dict(ops_seen)
     ctx.cov["skipped_too_many_assignments"] = skipped
     ctx.cov["failing_classes_seen"] = {k: len(v) for k, v in sorted(fails.items())}
@@ -343,6 +385,15 @@ def replay(ctx, obj):
     logging.disable(logging.CRITICAL)
     r = obj["replay"]
     annos = [tuple(t) for t in r["annos"]]
+    if r.get("seq_case"):
+        items = [_tuplify(i) for i in r["items"]]
+        print("sequence:", vx.seq_show(annos, items))
+        fl = vx.seq_run(annos, items)
+        for k, fkind, detail, res in fl:
+            print("VIOLATION property=C24 replay=(given)"); print("failure: item %d %s - %s (answer %s)" % (k, fkind, detail, res))
+        if not fl:
+            print("no failure on the current tree")
+        return 1 if fl else 0
     tree = _tuplify(r["tree"])
     print("expression:", vx.show(tree), "annotations:", [vsa.show(t) for t in annos])
     res = analyse(tree, annos, "replay")
